@@ -53,6 +53,44 @@ theorem c04_session_records_answer (sup : List String) (dflt : Option String) (r
     ∧ (handleInitialize sup dflt r).recorded ∈ sup := by
   refine ⟨rfl, rfl, serverAnswer_mem sup dflt r h⟩
 
+/-- ... lifted to sequences: for ANY sequence of initialize requests on one handler (any requested
+values, with or without a carried session id, live or stale), after EACH of them the session
+returned for that request records the version answered to that request, which is a supported
+one; and every session of the final store holds a supported version if the initial ones did. -/
+theorem c04_session_records_answer_seq (sup : List String) (dflt : Option String) (h : sup ≠ [])
+    (steps : List InitStep) (st : List String) :
+    (∀ o ∈ (runInits sup dflt st steps).1, o.2 = some o.1 ∧ o.1 ∈ sup)
+    ∧ ((runInits sup dflt st steps).1.map (·.1) = steps.map (fun s => serverAnswer sup dflt s.1))
+    ∧ ((∀ v ∈ st, v ∈ sup) → ∀ v ∈ (runInits sup dflt st steps).2, v ∈ sup) := by
+  induction steps generalizing st with
+  | nil => simp [runInits]
+  | cons s rest ih =>
+    obtain ⟨r, carry⟩ := s
+    have hm := serverAnswer_mem sup dflt r h
+    obtain ⟨ih1, ih2, ih3⟩ := ih (st ++ [(handleInitialize sup dflt r).recorded])
+    refine ⟨?_, ?_, ?_⟩
+    · intro o ho
+      simp only [runInits, List.mem_cons] at ho
+      rcases ho with ho | ho
+      · subst ho
+        simp [handleInitialize, hm]
+      · exact ih1 o ho
+    · simp only [runInits, List.map_cons, ih2]
+      rfl
+    · intro hst v hv
+      simp only [runInits] at hv
+      refine ih3 ?_ v hv
+      intro w hw
+      simp only [List.mem_append, List.mem_singleton] at hw
+      rcases hw with hw | hw
+      · exact hst w hw
+      · rw [hw]; exact hm
+
+example : (runInits ["2025-06-18", "2024-11-05"] none []
+      [(.str "2024-11-05", none), (.str "2025-06-18", some 0), (.str "garbage", some 7)]).1
+    = [("2024-11-05", some "2024-11-05"), ("2025-06-18", some "2025-06-18"), ("2025-06-18", some "2025-06-18")] := by
+  decide
+
 example : handleInitialize ["2025-06-18"] none (.str "garbage") = ⟨"2025-06-18", "2025-06-18"⟩ := by decide
 
 /-- Instance for the library's own constants (regenerated): the list is non-empty, so every
